@@ -10,7 +10,7 @@ from props import _worldfam as F
 
 PID = 'C08'
 GENERATORS = ['consts']
-LEAN_TARGETS = ['EosProofs.Props.C08']
+LEAN_TARGETS = ['EosProofs.Props.C08', 'EosProofs.Props.C08World']
 DRIVERS = ['drv_world']
 TRUSTED = F.WORLD_TRUSTED + [
     'harness-side instrumentation (tools/harness/schedule.py): the subscriber table of each fit is wrapped so that '
@@ -29,7 +29,7 @@ ASSUMPTIONS = ['float summation order noise tolerated (1e-9 relative)',
                'reactive armor hardeners are exercised in C12']
 CLAUSES = {
     'independent of the order in which a fit notifies its services': 'machine level: obs_schedule_independent (any two legal removal-set choices along the same configuration trace observe the same); impl: all 24 group orders + random per-message permutations',
-    'independent of memory-address-dependent iteration order of internal sets': 'gather_order_irrelevant (= C02.calculate_perm: any permutation of the gathered modifications gives the same value) + machine level as above; impl: salted hashes',
+    'independent of memory-address-dependent iteration order of internal sets': 'gather_order_irrelevant (= C02.calculate_perm: any permutation of the gathered modifications gives the same value) + machine level as above; message level / specification (C08World): the from-scratch table does not depend on the order of the item list, of a type\'s effect list or of an effect\'s modifier list (iteration_order_irrelevant_world), observations of legal histories agree under permuted item lists (obs_item_order_irrelevant_world, obs_item_order_any_state_world), the cache after a cascade depends only on the members of the direct invalidation list and of the reverse-dependency lists (cascade_order_irrelevant_world); impl: salted hashes',
     'running the same program twice gives the same values': 'follows; checked (baseline run twice)',
 }
 LEVEL_TEXT = ('Lean: order of removals/reads is irrelevant at machine level (same configuration trace => same observations) '
